@@ -23,8 +23,17 @@ def ppow (x y : Num) : Num := Real.rpow x y
 def ppow (x y : Num) : Num := Float.pow x y
 --@end
 
-/-- `round(x, 0)` of a float: nearest integer, ties to even, as a float. -/
+/-- `round(x, 0)` of a float: nearest integer, ties to even, as a float (keeps the sign of a zero result and
+    passes non-finite values through, as CPython does). -/
+--@only R
 def pround0 (x : Num) : Num := ofInt (pround x)
+--@end
+--@only F
+def pround0 (x : Num) : Num :=
+  if x.isNaN || x.isInf then x else
+  let r := ofInt (pround x)
+  if r == 0.0 && (x.toBits >>> 63 == 1) then -0.0 else r
+--@end
 
 /-- `class Ellipsoid`: `_a` equatorial radius (m), `_f` flattening, `_omega` angular velocity (rad/s). -/
 structure Ell where
